@@ -153,9 +153,9 @@ func floorFor(prop, tier string) int {
 func exhaustiveFor(prop, tier string) string {
 	if prop == "C05" {
 		if tier == "quick" {
-			return "every digraph with at most 4 nodes (self-loops included) through the real cycle search"
+			return "every digraph with at most 5 nodes (33.6 million, self-loops included) through the real cycle search"
 		}
-		return "every digraph with at most 4 nodes through the real cycle search; every dig program with at most 3 constructors over the listed scope trees, export flags, orders and edge encodings"
+		return "every digraph with at most 5 nodes (33.6 million, self-loops included) through the real cycle search; every dig program with at most 3 constructors over the listed scope trees, export flags, orders and edge encodings"
 	}
 	return ""
 }
